@@ -162,7 +162,7 @@ def run(ctx):
             # trailing Z handling
             isos = T.find_ops(body, "dt_datetime_fromisoformat")
             want = ITE(CMP("eq", op("item", t, sp.Integer(-1)), Str("Z")),
-                       op("item", t, op("slc", None, sp.Integer(-1), None)) + Str("+00:00"), t)
+                       op("concat", op("item", t, op("slc", None, sp.Integer(-1), None)), Str("+00:00")), t)
             ok = bool(isos) and all(T.equivalent(i.args[0], want) == T.Verdict.EQUAL for i in isos)
             ctx.expect(ok, "R17.2", "to_datetime_utc[str][Z suffix]",
                        "a trailing 'Z' is replaced by '+00:00' before fromisoformat", f.loc(),
